@@ -535,7 +535,9 @@ impl EliasFanoCursor<'_> {
             return self.advance_one();
         }
 
-        let target_idx = self.idx + k;
+        // `k` is caller-supplied and may be arbitrarily large; saturate so an
+        // oversized skip exhausts the cursor instead of wrapping around.
+        let target_idx = self.idx.saturating_add(k);
         if target_idx >= self.ef.len {
             self.idx = self.ef.len;
             return None;
@@ -685,6 +687,25 @@ mod tests {
         let mut cursor = ef.cursor();
         assert_eq!(cursor.current(), Some(42));
         assert_eq!(cursor.advance_one(), None);
+        assert!(cursor.is_exhausted());
+    }
+
+    #[test]
+    fn test_advance_by_huge_skip_exhausts() {
+        let ef = EliasFano::build(&[7]);
+        let mut cursor = ef.cursor();
+        assert_eq!(cursor.advance_one(), None);
+        assert!(cursor.is_exhausted());
+
+        // idx + k must not wrap back to a valid index.
+        assert_eq!(cursor.advance_by(usize::MAX), None);
+        assert!(cursor.is_exhausted());
+        assert_eq!(cursor.index(), ef.len());
+
+        let values: Vec<u32> = (0..200).collect();
+        let ef = EliasFano::build(&values);
+        let mut cursor = ef.cursor_from(3);
+        assert_eq!(cursor.advance_by(usize::MAX - 1), None);
         assert!(cursor.is_exhausted());
     }
 
